@@ -332,6 +332,11 @@ func (m *memoryEvictor) calculateReleaseByAllocatableThresholdPercent(thresholdC
 	}
 	resourceOnNode := node.Status.Allocatable
 	for rt, rq := range requestedOnNode {
+		if _, supported := apiext.ReverseResourceNameMap[rt]; !supported {
+			// only koord-batch/koord-mid resources are supported: calculateFunc accounts no release for
+			// any other resource, so such a target could never be met
+			continue
+		}
 		nq, ok := resourceOnNode[rt]
 		if !ok || nq.IsZero() {
 			overall[rt] = rq
